@@ -4,6 +4,9 @@ from harness import common as H
 from harness import faults as FT
 from vlib import fakes as F
 
+# private-attribute groups (vlib/layout.py) the obligations of this module depend on
+LAYOUT = ['manager', 'coord', 'task', 'bex', 'tasksem', 'sws'] + ['rfc', 'agg']
+
 EXPLANATION = (
     'C09: (1) one inductive step on the real ReadFileChunk + AggregatedProgressCallback from an ARBITRARY state '
     '(all integers unbounded): invariant file.pos = start+pos, 0 <= R <= size, R + A = min(pos,size), A < threshold '
